@@ -12,6 +12,10 @@ from .c08 import _inc
 from .c05 import lin, Lin
 from .c10 import pair_sites
 
+from . import forward
+
+from .c13 import lockdown
+
 META = {
     'explanation': (
         "Independence of neighbouring elements on arbitrary text is not "
@@ -25,7 +29,7 @@ META = {
         "start); duplicate detection compares each element with all later "
         "ones and raises one paired flag for lots and one for aliquots; "
         "lots_qqs = lots + qqs, ilots maps lots."),
-    'families': ['SEP', 'DEFUSE', 'PAIR', 'RX-LANG'],
+    'families': ['SEP', 'DEFUSE', 'PAIR', 'RX-LANG', 'FORWARD', 'DEADPARAM', 'SIB-DEFAULTS'],
 }
 
 
@@ -105,6 +109,9 @@ def check(ctx):
     ctx.attempt(_dups)
     ctx.attempt(_unpack_lots)
     ctx.attempt(_acreage)
+    ctx.attempt(forward.check_all, module_suffixes=('unpack.unpackers', 'tract.tract_parse', 'tract.tract'))
+    ctx.attempt(lockdown, ctx.repo.func('Tract.parse'), only=('include_lot_divs', 'suppress_lot_divs', 'parse_qq'))
+    ctx.attempt(common.embedded_case_consistency, modules=('rgxlib.lots', 'rgxlib.aliquots'))
 
 
 def _dups(ctx):
